@@ -1208,17 +1208,43 @@ def r5_11(run):
     ix = run.index
     opt_re = re.compile(r"""(?:get_net_option\(\s*net\s*,\s*|options\[|options\.get\(\s*)['"](\w+)['"]""")
 
-    def occurrences(m):
+    def opt_lits(fnode, node, par):
+        """option literals that hold when `node` is evaluated: enclosing tests, and the negated tests of earlier sibling statements
+        `if <test>: return / raise / continue` (guard clauses) at every enclosing block level"""
+        from ..pathcond import literals
+        raw = set(path_condition(fnode, node, par))
+        cur = node
+        while cur in par and cur is not fnode:
+            up = par[cur]
+            for field in ("body", "orelse", "finalbody"):
+                block = getattr(up, field, None)
+                if isinstance(block, list) and cur in block:
+                    for prev in block[:block.index(cur)]:
+                        if isinstance(prev, ast.If) and not prev.orelse and prev.body and \
+                                isinstance(prev.body[-1], (ast.Return, ast.Raise, ast.Continue)):
+                            raw |= literals(fnode, prev.test, False)
+            cur = up
+        lits = set()
+        for lit, pol in raw:
+            mo = opt_re.search(lit)
+            if mo and lit.strip().startswith(mo.group(0)[:6]):
+                lits.add((mo.group(1), pol))
+        return lits
+
+    def occurrences(m, ci=None, extra=frozenset(), depth=0):
         par = parents(m.node)
         out = {}
+        doc = getattr(m.node.body[0], "value", None) if m.node.body else None
         for n in ast.walk(m.node):
-            if isinstance(n, ast.Constant) and isinstance(n.value, str) and n is not getattr(m.node.body[0], "value", None):
-                lits = set()
-                for lit, pol in path_condition(m.node, n, par):
-                    mo = opt_re.search(lit)
-                    if mo and lit.strip().startswith(mo.group(0)[:6]):
-                        lits.add((mo.group(1), pol))
-                out.setdefault(n.value, []).append((lits, n))
+            if isinstance(n, ast.Constant) and isinstance(n.value, str) and n is not doc:
+                out.setdefault(n.value, []).append((opt_lits(m.node, n, par) | extra, n))
+            elif isinstance(n, ast.Call) and ci is not None and depth < 2 and isinstance(n.func, ast.Attribute) \
+                    and isinstance(n.func.value, ast.Name) and n.func.value.id in ("cls", "self"):
+                # a helper method of the component called from here: its occurrences hold under the conditions of the call
+                h = ix.lookup_method(ci, n.func.attr)
+                if h is not None and h is not m and h.short.split(".")[-1] not in ("get_result_table", "extract_results", "table_name"):
+                    for col, occ in occurrences(h, ci, opt_lits(m.node, n, par) | extra, depth + 1).items():
+                        out.setdefault(col, []).extend(occ)
         return out
 
     seen = set()
@@ -1231,7 +1257,7 @@ def r5_11(run):
         seen.add((t.qualname, m.qualname))
         run.analysed(t)
         run.analysed(m)
-        tocc, mocc = occurrences(t), occurrences(m)
+        tocc, mocc = occurrences(t, ci), occurrences(m, ci)
         for col, occ in sorted(mocc.items()):
             if col not in tocc:
                 continue
